@@ -17,6 +17,7 @@
 From Coq Require Import NArith ZArith List Lia Bool.
 From Cao Require Import ListUtil Bits Stacks StacksProofs Vm VmProofs VmNativeProofs.
 From Cao Require Import VmUpvalueProofs VmUpvalueStep VmUpvalueSem C04VmProofs.
+From Cao Require Import Bytecode CompilerProofs C01SimVm.
 Import ListNotations.
 
 Arguments N.add : simpl never.
@@ -404,6 +405,80 @@ Proof.
     + revert i Hi. induction args as [|z args IH]; intros i Hi; cbn [length] in Hi; [lia|].
       destruct i; cbn [upd app]; [reflexivity|]. f_equal. apply IH. lia.
     + f_equal. exact IH.
+Qed.
+
+(* ------------------------------------------------------------------ *)
+(* 4. A static call site: FunctionPointer h ar; CallFunction           *)
+(* ------------------------------------------------------------------ *)
+
+Lemma code_at_fp_operands ip h ar :
+  code_at P ip (IFunctionPointer h ar) -> (h < 4294967296)%N -> (ar < 4294967296)%N ->
+  opcode_at ip = 37%N /\ op_u32 P (ip + 1) = Some h /\ op_u32 P (ip + 1 + 4) = Some ar.
+Proof.
+  intros Hc Hh Har. split; [exact (code_at_opcode Hc)|].
+  split; [exact (code_at_operand1 (w := 4) Hc eq_refl eq_refl (fits4_lt Hh))|].
+  destruct Hc as (pre & post & E & <-). unfold op_u32, read_le.
+  assert (Hlen : (N.of_nat (length pre) + 1 + 4 + N.of_nat 4 <= N.of_nat (length (p_code P)))%N).
+  { rewrite E, !app_length. unfold encode_instr. cbn [instr_op op_widths instr_args encode_args length].
+    rewrite !app_length, !le_bytes_length. cbn [length]. lia. }
+  apply N.leb_le in Hlen. rewrite Hlen. f_equal.
+  rewrite E. unfold encode_instr. cbn [instr_op op_widths instr_args encode_args op_code].
+  replace (N.to_nat (N.of_nat (length pre) + 1 + 4)) with (length (pre ++ 37%N :: le_bytes 4 h))
+    by (rewrite app_length; cbn [length]; rewrite le_bytes_length; lia).
+  replace (pre ++ (37%N :: le_bytes 4 h ++ le_bytes 4 ar ++ []) ++ post)
+    with ((pre ++ 37%N :: le_bytes 4 h) ++ le_bytes 4 ar ++ post)
+    by (rewrite app_nil_r, <- !app_assoc; cbn [app]; rewrite <- !app_assoc; reflexivity).
+  rewrite skipn_app_len, firstn_len_app by (rewrite le_bytes_length; reflexivity).
+  apply le_to_N_le_bytes. exact (fits4_lt Har).
+Qed.
+
+(* FunctionPointer h ar allocates a function object and pushes a pointer to it *)
+Theorem vm_function_pointer : forall ip s h ar,
+  code_at P ip (IFunctionPointer h ar) -> (h < 4294967296)%N -> (ar < 4294967296)%N ->
+  stack_ok s -> S (length (stack_of s)) < cap s ->
+  let fa := N.of_nat (length (st_heap s)) in
+  let s1 := pushed (set_heap s (st_heap s ++ [OFun h ar])) (VObj fa) in
+  STEP ip s = SNext (ip + 9) s1 /\ stack_ok s1 /\ stack_of s1 = stack_of s ++ [VObj fa] /\
+  hget (st_heap s1) fa = Some (OFun h ar) /\ st_calls s1 = st_calls s.
+Proof.
+  intros ip s h ar Hc Hh Har Hok Hroom fa s1.
+  destruct (code_at_fp_operands ip h ar Hc Hh Har) as (Hop & Eh & Ea).
+  set (s0 := set_heap s (st_heap s ++ [OFun h ar])).
+  assert (Hok0 : stack_ok s0) by exact Hok.
+  destruct (spush_exact s0 (VObj fa) Hok0 Hroom) as (Ep & Hok1 & Hst1).
+  split.
+  { step_opc Hop. unfold i_37_42. rewrite Eh, Ea. change (37 =? 37)%N with true. cbv iota.
+    unfold salloc, halloc. cbv zeta. fold fa. fold s0. unfold push_next. rewrite Ep.
+    replace (ip + 1 + 8)%N with (ip + 9)%N by lia. reflexivity. }
+  split; [exact Hok1|]. split; [exact Hst1|]. split; [|reflexivity].
+  unfold s1, pushed, hget, fa. cbn [st_heap set_stack set_heap]. rewrite Nat2N.id, nth_error_app2 by lia.
+  rewrite Nat.sub_diag. reflexivity.
+Qed.
+
+(* the pair FunctionPointer h ar; CallFunction at ip, executed with [stk] on the stack: after the two dispatches
+   the stack is [stk] again, the heap has one more object (the function value), and the outcome is that of
+   CallFunction on a function object of handle h and arity ar (call_result). *)
+Theorem vm_static_call : forall ip s h ar top rest,
+  code_at P ip (IFunctionPointer h ar) -> code_at P (ip + 9) ICallFunction ->
+  (h < 4294967296)%N -> (ar < 4294967296)%N ->
+  stack_ok s -> S (length (stack_of s)) < cap s -> st_calls s = top :: rest ->
+  let fa := N.of_nat (length (st_heap s)) in
+  let s1 := pushed (set_heap s (st_heap s ++ [OFun h ar])) (VObj fa) in
+  let s2 := popped s1 (length (stack_of s)) in
+  STEP ip s = SNext (ip + 9) s1 /\
+  STEP (ip + 9) s1 = call_result (ip + 9) s2 (length (stack_of s)) h ar None top rest /\
+  stack_ok s2 /\ stack_of s2 = stack_of s /\ st_heap s2 = st_heap s ++ [OFun h ar] /\
+  st_globals s2 = st_globals s /\ st_open s2 = st_open s.
+Proof.
+  intros ip s h ar top rest Hc1 Hc2 Hh Har Hok Hroom Hcs fa s1 s2.
+  destruct (vm_function_pointer ip s h ar Hc1 Hh Har Hok Hroom) as (E1 & Hok1 & Hst1 & Hfa & Hcalls).
+  fold fa in E1, Hok1, Hst1, Hfa, Hcalls. fold s1 in E1, Hok1, Hst1, Hfa, Hcalls.
+  split; [exact E1|].
+  assert (Hcs1 : st_calls s1 = top :: rest) by (rewrite Hcalls; exact Hcs).
+  destruct (vm_call_function (ip + 9) s1 (stack_of s) fa false h ar [] top rest
+              (code_at_opcode Hc2) Hok1 Hst1 Hfa Hcs1) as (Hok2 & Hst2 & E2).
+  fold s2 in Hok2, Hst2, E2. split; [exact E2|]. split; [exact Hok2|]. split; [exact Hst2|].
+  repeat split.
 Qed.
 
 End Call.
